@@ -2,31 +2,44 @@
 import DSProofs.Lemmas.BloomFixed14
 namespace DS.Bloom
 
-/-- evaluating `parseImage` from the values of the fields it reads (standard image) -/
+/-- evaluating `parseImage` from the values of the fields it reads (standard image; either reader shape) -/
 theorem parseImage_eval_full (P : Params) (hP : P.Wire) (b : Block) (cap nh seed nbs : Nat)
     (hlen : 32 ≤ b.len)
     (e0 : getField b.val 0 8 = 4) (e1 : getField b.val 8 8 = P.serVer) (e2 : getField b.val 16 8 = P.family)
     (e3 : getField b.val 24 8 = 0) (e4 : getField b.val 32 16 = nh) (e5 : getField b.val 64 64 = seed)
     (e6 : getField b.val 128 32 = cap / 64) (e7 : getField b.val 192 64 = nbs)
-    (hcap : 0 < cap) (h64 : cap % 64 = 0) (hlt : cap < 2 ^ 32) :
+    (hcap : 0 < cap) (h64 : cap % 64 = 0) (hlt : cap < 2 ^ 32) (hk : 1 ≤ nh) :
     parseImage P b = .full cap nh seed nbs (cap / 64) := by
-  have hc : cap / 64 * 64 % 2 ^ 32 = cap := by omega
+  have hc : capOf P (cap / 64) = cap := by unfold capOf; split <;> omega
+  have hnl : cap / 64 ≠ 0 := by omega
+  have hnh : nh ≠ 0 := by omega
   simp only [parseImage, e0, e1, e2, e3, e4, e5, e6, e7, hP.preEmpty, hP.preStd, hP.emptyMask, hc]
-  rw [if_neg (by omega), if_neg (by simp), if_neg (by simp), if_neg (by simp), if_neg (by omega), if_neg (by simp), if_neg (by omega),
-    if_neg (by simp; omega)]
+  repeat' split
+  all_goals first
+    | rfl
+    | (exfalso; omega)
+    | (exfalso; simp_all; done)
+    | (exfalso; rename_i h; simp [hnh, hnl] at h; done)
+    | (exfalso; rename_i h; simp [hnh, hnl] at h; omega)
 
 /-- evaluating `parseImage` for an image with the EMPTY flag -/
 theorem parseImage_eval_empty (P : Params) (hP : P.Wire) (b : Block) (nh seed nl : Nat)
     (hlen : 24 ≤ b.len)
     (e0 : getField b.val 0 8 = 3) (e1 : getField b.val 8 8 = P.serVer) (e2 : getField b.val 16 8 = P.family)
     (e3 : getField b.val 24 8 = 4) (e4 : getField b.val 32 16 = nh) (e5 : getField b.val 64 64 = seed)
-    (e6 : getField b.val 128 32 = nl) :
-    parseImage P b = .emptyImg ((nl * 64) % 2 ^ 32) nh seed := by
+    (e6 : getField b.val 128 32 = nl) (hk : 1 ≤ nh) (hnl : nl ≠ 0) :
+    parseImage P b = .emptyImg (capOf P nl) nh seed := by
+  have hnh : nh ≠ 0 := by omega
   simp only [parseImage, e0, e1, e2, e3, e4, e5, e6, hP.preEmpty, hP.preStd, hP.emptyMask]
-  rw [if_neg (by omega), if_neg (by simp), if_neg (by simp), if_neg (by simp), if_neg (by omega), if_pos (by decide)]
+  repeat' split
+  all_goals first
+    | rfl
+    | (exfalso; omega)
+    | (exfalso; simp_all; done)
+    | (exfalso; rename_i h; simp [hnh, hnl] at h; done)
 
 theorem parse_init (P : Params) (hP : P.Wire) (len X0 cap nh seed : Nat) (hlen : 8 * (4 + cap / 64) ≤ len)
-    (hcap : 0 < cap) (h64 : cap % 64 = 0) (hlt : cap < 2 ^ 32) (hnh : nh < 2 ^ 16) (hseed : seed < 2 ^ 64) :
+    (hcap : 0 < cap) (h64 : cap % 64 = 0) (hlt : cap < 2 ^ 32) (hnh : nh < 2 ^ 16) (hseed : seed < 2 ^ 64) (hk : 1 ≤ nh) :
     parseImage P ⟨len, setField X0 0 (8 * (24 + 8 * (cap / 64 + 1))) (headerVal P P.preStd 0 nh seed (cap / 64))⟩
       = .full cap nh seed 0 (cap / 64) := by
   have hf := headerVal_fields P P.preStd 0 nh seed (cap / 64)
@@ -45,6 +58,7 @@ theorem parse_init (P : Params) (hP : P.Wire) (len X0 cap nh seed : Nat) (hlen :
   · exact hcap
   · exact h64
   · exact hlt
+  · exact hk
 
 /-- the bit array of a freshly initialised block is clear -/
 theorem init_bits_clear (P : Params) (X0 cap nh seed j : Nat) (hj : j < cap) (h64 : cap % 64 = 0) :
@@ -53,10 +67,10 @@ theorem init_bits_clear (P : Params) (X0 cap nh seed j : Nat) (hj : j < cap) (h6
   simp only [Nat.zero_add] at this
   rw [this]; exact headerVal_high _ _ _ _ _ _ _ (by omega)
 
-theorem parse_image_full (P : Params) (hP : P.Wire) (w : World) (f : Filter) (hw : FWF f) (hne : f.isEmpty = false) :
+theorem parse_image_full (P : Params) (hP : P.Wire) (w : World) (f : Filter) (hw : FWF f) (hk : KOK f) (hne : f.isEmpty = false) :
     parseImage P (image P w f) = .full f.capBits f.numHashes f.seed ((if f.dirty then P.dirty else f.nbs) % 2 ^ 64) (f.capBits / 64) := by
   have hf := headerVal_fields P P.preStd 0 f.numHashes f.seed (f.capBits / 64)
-  have hcl := hw.capLt
+  have hcl := hk.2
   have h64 := hw.cap64
   simp only [image, hne, Bool.false_eq_true, if_false]
   apply parseImage_eval_full P hP _ f.capBits f.numHashes f.seed _ (by simp only; rw [hP.preStd]; omega)
@@ -71,18 +85,26 @@ theorem parse_image_full (P : Params) (hP : P.Wire) (w : World) (f : Filter) (hw
   · exact hw.capPos
   · exact h64
   · exact hcl
+  · exact hk.1
 
-theorem parse_image_empty (P : Params) (hP : P.Wire) (w : World) (f : Filter) (hw : FWF f) (he : f.isEmpty = true) :
-    ∃ nb, parseImage P (image P w f) = .emptyImg nb f.numHashes f.seed := by
+theorem parse_image_empty (P : Params) (hP : P.Wire) (w : World) (f : Filter) (hw : FWF f) (hk : KOK f) (he : f.isEmpty = true) :
+    parseImage P (image P w f) = .emptyImg f.capBits f.numHashes f.seed := by
   have hf := headerVal_fields P P.preEmpty P.emptyMask f.numHashes f.seed (f.capBits / 64)
+  have hcl := hk.2
+  have h64 := hw.cap64
+  have hpos := hw.capPos
+  have hnl : f.capBits / 64 % 2 ^ 32 = f.capBits / 64 := Nat.mod_eq_of_lt (by omega)
+  have hc : capOf P (f.capBits / 64) = f.capBits := by unfold capOf; split <;> omega
   simp only [image, he, if_true]
-  refine ⟨_, parseImage_eval_empty P hP _ f.numHashes f.seed (f.capBits / 64 % 2 ^ 32) (by simp only; rw [hP.preEmpty]; omega) ?_ ?_ ?_ ?_ ?_ ?_ ?_⟩
+  have := parseImage_eval_empty P hP ⟨8 * P.preEmpty, headerVal P P.preEmpty P.emptyMask f.numHashes f.seed (f.capBits / 64)⟩
+    f.numHashes f.seed (f.capBits / 64) (by simp only; rw [hP.preEmpty]; omega) ?_ ?_ ?_ ?_ ?_ ?_ ?_ hk.1 (by omega)
+  · rw [hc] at this; exact this
   · simp only; rw [hf.1, hP.preEmpty]
   · simp only; rw [hf.2.1]; exact Nat.mod_eq_of_lt hP.serVer
   · simp only; rw [hf.2.2.1]; exact Nat.mod_eq_of_lt hP.family
   · simp only; rw [hf.2.2.2.1, hP.emptyMask]
   · simp only; rw [hf.2.2.2.2.1]; exact Nat.mod_eq_of_lt hw.nh
   · simp only; rw [hf.2.2.2.2.2.1]; exact Nat.mod_eq_of_lt hw.seed
-  · simp only; rw [hf.2.2.2.2.2.2]
+  · simp only; rw [hf.2.2.2.2.2.2, hnl]
 
 end DS.Bloom
